@@ -33,7 +33,7 @@ def run(ctx):
     if any(k in ctx.build_errors for k in ("harness", "ocaml", "shim")):
         ties.append({"what": "correspondence machinery did not build", "detail": list(ctx.build_errors)})
         return C.finish(ctx, PROPS, aud, {"evaluations": 0, "distinct_nontrivial": 0, "samples": []}, violations, ties, ASSUME, level="exploration")
-    fams = K.families(ctx.tier)
+    fams = [f for f in K.families(ctx.tier) if "adversary" not in f["name"]]
     jobs = []
     for fam in fams:
         lens, _ = K.solo_lengths(fam)
